@@ -169,4 +169,4 @@ def node_mode_plumbing(prog, rep, rid: str):
     """Node-weighted input reaches the model through NodeExpandedDiGraph: its naming scheme, attribute handling and
     translators are a necessary condition of every property that quantifies over node-weighted graphs (C11.R3)."""
     from rules import c11
-    c11.naming_rule(prog, RuleProxy(rep, rid))
+    c11.naming_rule(prog, RuleProxy(rep, rid), "C11.R3")
